@@ -352,6 +352,40 @@ def finalPan (fp mix : Int) (mono surround : Bool) : Int :=
 def voicePan (fp mix : Int) (mono surround : Bool) : Int :=
   if surround then PAN_SURROUND else finalPan fp mix mono surround
 
+/-! ## `process_pan` (src/player.c): the pan sources, their sum, the clamp -/
+
+/-- the pan sources `process_pan` adds up -/
+structure PanSrc where
+  /-- `xc->pan.val`: channel pan, instrument / sample default pan, set-pan effects, pan slides, pitch-pan separation -/
+  panVal : Int
+  /-- `libxmp_lfo_get(&xc->panbrello.lfo) / 512` when the panbrello effect is active, else 0 -/
+  panbrello : Int
+  /-- `get_envelope(&instrument->pei, xc->p_idx, 32)`: 32 when there is no pan envelope -/
+  penv : Int
+  /-- `xc->rpv`: IT random pan swing -/
+  rpv : Int
+  /-- `IS_PLAYER_MODE_IT()` -/
+  itMode : Bool
+  deriving Repr, DecidableEq
+
+/-- `finalpan = channel_pan + panbrello + (pan_envelope - 32) * (128 - abs(xc->pan.val - 128)) / 32;`
+`if (IS_PLAYER_MODE_IT()) finalpan = finalpan + xc->rpv * 4;` -/
+def panSum (p : PanSrc) : Int :=
+  p.panVal + p.panbrello + Int.tdiv ((p.penv - 32) * (128 - ((p.panVal - 128).natAbs : Int))) 32
+    + (if p.itMode then p.rpv * 4 else 0)
+
+/-- `CLAMP(finalpan, 0, 255)` -/
+def clampPan (x : Int) : Int := if x < 0 then 0 else if x > 255 then 255 else x
+
+/-- **`process_pan`**: what it hands to `libxmp_virt_setpan` — every pan source goes through the clamp
+*before* the separation scaling `* s->mix / 100` -/
+def processPan (p : PanSrc) (mix : Int) (mono surround : Bool) : Int :=
+  voicePan (clampPan (panSum p)) mix mono surround
+
+/-- `xc->info_finalpan` -/
+def infoFinalPan (p : PanSrc) (mix : Int) (mono surround : Bool) : Int :=
+  finalPan (clampPan (panSum p)) mix mono surround + 0x80
+
 /-! ## Downmix (for the quantisation bound) -/
 
 /-- `smp = *src >> shift` then the clamp, 16-bit: `shift = DOWNMIX_SHIFT - amp`;
